@@ -327,6 +327,11 @@ theorem hinv_stageCommit (c : Cl) (n ts idn : Nat) (b : Body) (na : Bool) (h : H
        subst hp
        exact ⟨_, _, rfl⟩)
 
+theorem hinv_updateData (c : Cl) (n ts idn : Nat) (u : DataUpd) (h : HInv c) : HInv (updateData c n ts idn u).1 := by
+  unfold updateData
+  repeat' split
+  all_goals first | exact h | exact hinv_stageCommit c n ts idn _ true h
+
 theorem hinv_leave (c : Cl) (n ts idn : Nat) (h : HInv c) : HInv (leave c n ts idn).1 := by
   unfold leave
   split
